@@ -274,6 +274,27 @@ func c11Worker(args []string) {
 					if k%5 == 2 {
 						script = fmt.Sprintf("c = c + 1; n = 0; foreach kk, vv in HostHash { n++; } if (string(keys(HostHash)) == %q && n == 60 && len(string(HostHash)) > 600 && string(sort(keys(HostArr[3]))) == %q && HostArr[0] == 3 && len(HostArr) == 4 && Word ~= /^w/) { return c; } return 0 - c;", wantKeys, wantKeys)
 					}
+					if k%7 == 3 {
+						// an evaluator of its own whose run fails inside the call machinery (wrong
+						// argument count from the main program / from inside a function, unknown
+						// function, a fault in mid-call): whatever it leaves behind is its own
+						bad := []string{
+							"function two(a, b) { return a + b; } x = two(1); return x;",
+							"function two(a, b) { return a + b; } function wrap(n) { return 1 + two(n); } return wrap(2) + 1;",
+							"function two(a, b) { return a + b; } return two(1, 2, 3);",
+							"function f(n) { return missing_fn(n) + 1; } return f(1);",
+							"function f(n) { return [1, 2, n / ZERO]; } return 1 + f(1)[0];",
+						}[(k/7+g)%5]
+						pe := evalfilter.New(bad)
+						if err := pe.Prepare(); err != nil {
+							ownMismatch[g] = append(ownMismatch[g], "prepare of a failing script: "+err.Error())
+						} else if out, err := pe.Execute(map[string]interface{}{"ZERO": 0}); err == nil {
+							ownMismatch[g] = append(ownMismatch[g], fmt.Sprintf("own evaluator %s gave %v without an error", bad, out.Inspect()))
+						}
+						ownRunsBy[g]++
+					}
+					// (every script also goes through a few calls of its own functions)
+					script = fmt.Sprintf("function idf(x) { return x; } function add3(a, b, cc) { return idf(a) + idf(b) + cc; } if (add3(%d, 2, idf(3)) != %d) { return 0; } ", k, k+5) + script
 					e := evalfilter.New(script)
 					e.SetVariable("c", &object.Integer{Value: 0})
 					e.SetVariable("HostHash", hostHash)
